@@ -183,6 +183,14 @@ def poly(x):
     return x * x + 2 * x + 1
 
 
+def relu(x):
+    return x if x > 0 else 0          # returns the entry itself or the *integer* 0
+
+
+def step(x):
+    return 1 if x > 1 else x / 2      # integer for large entries, float otherwise
+
+
 def tensor_sig():
     return [("tbox", "a", (2,), (3,)), ("tbox", "b", (3,), (2, 2)), ("tbox", "c", (), (2,)),
             ("tbox", "d", (2, 3), ()), ("tbox", "s", (), ()), ("tbox", "ad", (3,), (2,), True),
@@ -192,7 +200,11 @@ def tensor_sig():
             ("e", "Spider(1, 2, 2)"), ("e", "Spider(2, 1, 3)"), ("e", "Spider(0, 1, 2)"), ("e", "Spider(2, 0, 3)"),
             ("e", "Cup(Dim(2), Dim(2))"), ("e", "Cap(Dim(3), Dim(3))"),
             ("e", "Box('p', Dim(2), Dim(3), [1, 2, 3, 4, 5, 6]).bubble(func=poly)"),
-            ("e", "(Box('p', Dim(2), Dim(2), [1, 2j, 3, 4]) >> Box('q', Dim(2), Dim(2), [0, 1, 1, 5])).bubble(func=poly)")], \
+            ("e", "(Box('p', Dim(2), Dim(2), [1, 2j, 3, 4]) >> Box('q', Dim(2), Dim(2), [0, 1, 1, 5])).bubble(func=poly)"),
+            # functions whose return type depends on the entry, on data whose first entry takes the odd branch
+            ("e", "Box('r', Dim(2), Dim(3), [-1.5, 0.5, 2.5, -0.25, 1.75, 3.5]).bubble(func=relu)"),
+            ("e", "Box('t', Dim(2), Dim(2), [3, 0.5, 0.25, 1.5]).bubble(func=step)"),
+            ("e", "Box('n', Dim(2), Dim(2), [0, 2, 0.5, 0]).bubble()")], \
         [(), (2,), (3,), (2, 3), (2, 2)]
 
 
@@ -202,7 +214,8 @@ def ref_tensor_matrix(d):
     def mat_of(b, dd, dc):
         if isinstance(b, tensor.Bubble):
             inner = ref_tensor_matrix(b.inside)
-            return np.vectorize(b.func)(inner).reshape(ref.prod(dd), ref.prod(dc))
+            return np.array([b.func(v.real if v.imag == 0 else v) for v in np.asarray(inner).flatten().tolist()],
+                            dtype=complex).reshape(ref.prod(dd), ref.prod(dc))
         if isinstance(b, tensor.Spider):
             m = np.zeros((ref.prod(dd), ref.prod(dc)))
             dim = (dd + dc)[0] if dd + dc else 1
@@ -226,7 +239,7 @@ def ref_tensor_matrix(d):
 
 def tensor_build(recipe):
     k = build.kit("tensor")
-    k.ns["poly"] = poly
+    k.ns.update(poly=poly, relu=relu, step=step)
     return build.build(recipe)
 
 
@@ -301,7 +314,7 @@ def run(ctx):
     interps = interpretations(ctx.quick)
     tsig, tdoms = tensor_sig()
     k = build.kit("tensor")
-    k.ns["poly"] = poly
+    k.ns.update(poly=poly, relu=relu, step=step)
     tsrc = list(build.expr_universe("tensor", tsig, tdoms, depth, 3))
     ctx.count("states", len(src) + len(tsrc))
     ctx.note("sizes", "%d rigid source diagrams x %d interpretations; %d tensor diagrams"
